@@ -670,6 +670,10 @@ where
     /// or according to the `read_preamble` option on construction.
     pub fn read_preamble(&mut self) -> Result<Option<[u8; 128]>> {
         ensure!(self.state == CollectorState::Start, IllegalStateStartSnafu);
+        // the data set parser may already own the source
+        // (a data set request was made with an expected transfer syntax
+        // before anything else was read)
+        ensure!(!self.source.has_parser(), IllegalStateStartSnafu);
 
         if self.read_preamble == ReadPreamble::Never {
             self.state = CollectorState::Preamble;
@@ -752,6 +756,7 @@ where
         }
 
         if self.state == CollectorState::Preamble {
+            ensure!(!self.source.has_parser(), IllegalStateMetaSnafu);
             let reader = self.source.raw_reader_mut();
             self.file_meta = Some(FileMetaTable::from_reader(reader).context(BuildMetaTableSnafu)?);
 
